@@ -36,7 +36,8 @@ OBLIGATIONS = {"lhs": 50, "lhs:n=1": 3, "lhs:narrow-range": 5, "lhs:scalar-pmax"
                "pareto:complete": 30, "pareto:nan": 30, "pareto:ties": 30,
                "pareto:n<=1": 5, "box:nan-inf": 30, "box:lt4": 10, "box:constant": 5,
                "box:by": 20, "violin": 20, "violin:inf": 5, "violin:constant": 3,
-               "violin:odd-size": 3, "lhs:bounds-reused": 50, "box:drawn": 10,
+               "violin:odd-size": 3, "lhs:bounds-reused": 50, "box:drawn": 10, "box:width_from_count": 10,
+               "violin:long-column": 3,
                "ppos:caller-modifies-result": 30}
 
 
@@ -389,7 +390,12 @@ def run_box_case(ctx, case):
     with warnings.catch_warnings():
         warnings.simplefilter("ignore")
         try:
-            bp = boxplot.Boxplot(df, box_coverage=bc, whiskers_coverage=wc)
+            # (width_from_count only changes how wide the boxes are drawn)
+            wfc = bool(ctx.evaluations % 3 == 0)
+            if wfc:
+                ctx.tag("box:width_from_count")
+            bp = boxplot.Boxplot(df, box_coverage=bc, whiskers_coverage=wc,
+                                 width_from_count=wfc)
             st = bp.stats
         except Exception as e:
             ctx.check("Boxplot.runs", False, "Boxplot|raises", case, {"exc": repr(e)})
@@ -475,13 +481,17 @@ def run_violin_case(ctx, case):
     n = len(cols[0])
     if 100 < n < 500 and n % 2 == 1:
         ctx.tag("violin:odd-size")
+    if n > 500:
+        ctx.tag("violin:long-column")
     df = pd.DataFrame({f"c{i}": c for i, c in enumerate(cols)})
     np.random.seed(int(case.get("npseed", 1)))
     ctx.api("Violin")
     with warnings.catch_warnings():
         warnings.simplefilter("ignore")
         try:
-            vl = violinplot.Violin(df)
+            # (the documented re-sampling size only concerns the density estimate)
+            vkw = {} if n % 3 else {"nresample_kde": [80, 500, 2000][n % 9 // 3]}
+            vl = violinplot.Violin(df, **vkw)
             st = vl.stats
             kx, ky = vl.kde_x, vl.kde_y
         except Exception as e:
@@ -631,7 +641,8 @@ def run(ctx):
                                  "whisk": wc})
         # violin
         if it0 % 3 == 0:
-            nv = [5, 101, 151, 30, 499, 120, 3, 250][(it // 3) % 8] \
+            nv = [5, 101, 151, 30, 499, 120, 3, 250, 500, 501, 640, 1000, 1025,
+                  2500][(it // 3) % 14] \
                 if it % 2 == 0 else int(rng.integers(1, 400))
             ncv = int(rng.integers(1, 4))
             vc = [spoil(rng, gen_column(rng, nv, int(rng.integers(0, 5))),
